@@ -170,13 +170,13 @@ __CPROVER_assigns(g_done, g_hit, g_last_node, g_last_list, g_last_idx, g_cur_num
            head_expect=r'^template<class StringCompareFunction, class NumberCompareFunction> inline bool compareNodeSets\( const XObject& theLHS, const XObject& theRHS, XObject::eObjectType theRHSType, const StringCompareFunction& theStringCompareFunction, const NumberCompareFunction& theNumberCompareFunction, XPathExecutionContext& executionContext\)$',
            rules=[(r'XObject::(eType\w+)', r'\1', None),
                   (r'\b(theLHS|theRHS)\.nodeset\(\)', r'xv_nodeset(\1)', None),
-                  (r'\btheRHS\.num\(executionContext\)', 'xv_num(theRHS)', None),
+                  (r'\btheRHS\.num\(executionContext\)', 'xv_num(theRHS)', (1, 6)),
                   (r'\b(theLHS|theRHS)\.boolean\(executionContext\)', r'xv_boolean(\1)', 1),
                   (r'doCompareNodeSets\(\s*(xv_nodeset\(\w+\)),\s*(xv_nodeset\(\w+\)),\s*getStringFromNodeFunction\(executionContext\),\s*theStringCompareFunction,\s*executionContext\)', r'xv_doCompareNodeSets(\1, \2)', (1, 3)),
                   (r'doCompareNumber\(\s*(xv_nodeset\(\w+\)),\s*getNumberFromNodeFunction\(executionContext\),\s*([^,]+),\s*theNumberCompareFunction\)', r'xv_doCompareNumber(\1, \2)', (1, 4)),
                   (r'doCompareString\(\s*(xv_nodeset\(\w+\)),\s*getStringFromNodeFunction\(executionContext\),\s*(\w+),\s*theStringCompareFunction,\s*executionContext\)', r'xv_doCompareString(\1, \2)', (1, 4)),
                   (r'theNumberCompareFunction\(', 'xv_numcmp(', 1),
-                  (r'DoubleSupport::isNaN\((\w+)\)', r'XV_ISNAN(\1)', 1),
+                  (r'DoubleSupport::isNaN\((\w+)\)', r'XV_ISNAN(\1)', (0, 1)),
                   'SCOPE'],
            nloops=0,
            contract='''__CPROVER_requires(theLHS == g_L && theRHS == g_R && g_L != g_R && g_lhs != g_rhs && g_kind == K_NONE && g_ncalls == 0 && XV_ISBOOL(g_res) && XV_ISBOOL(g_lbool))
@@ -186,8 +186,8 @@ __CPROVER_ensures(/* node-set with node-set (XPath 3.4): some pair of nodes, com
 __CPROVER_ensures(/* node-set with string: some node whose string-value compares true with the string */ theRHSType == eTypeString ==> (g_kind == K_STRING && g_ncalls == 1 && __CPROVER_return_value == g_res))
 __CPROVER_ensures(/* node-set with number: some node whose string-value converted to a number compares true with the number */ theRHSType == eTypeNumber ==> (g_kind == K_NUMBER && g_ncalls == 1 && __CPROVER_return_value == g_res))
 __CPROVER_ensures(/* node-set with boolean: boolean(node-set) against the boolean, no loop over the nodes */ theRHSType == eTypeBoolean ==> (g_kind == K_PLAIN && g_ncalls == 1 && g_plain_l == (g_lbool == true ? 1.0 : 0.0) && __CPROVER_return_value == g_res))
-__CPROVER_ensures(/* result tree fragment: one of the two per-node loops (as a number when the fragment is numeric - Xalan's choice, not pinned to the Recommendation here) */
-    theRHSType == eTypeResultTreeFrag ==> (g_ncalls == 1 && (g_kind == K_NUMBER || g_kind == K_STRING) && (g_kind == K_NUMBER) == !XV_ISNAN(g_rnum) && __CPROVER_return_value == g_res))
+__CPROVER_ensures(/* node-set with result tree fragment (XSLT 11.1: the fragment is a node-set with a single root node): some node whose string-value compares true with the string-value of the fragment */
+    theRHSType == eTypeResultTreeFrag ==> (g_kind == K_STRING && g_ncalls == 1 && __CPROVER_return_value == g_res))
 __CPROVER_ensures(theRHSType == eTypeUnknown ==> (g_ncalls == 0 && __CPROVER_return_value == false))'''),
     ],
     blocks=[ENUM],
